@@ -1677,6 +1677,11 @@ public:
 template<template<typename,size_t...> class TensorType, typename T, size_t DIMS, size_t ... Rest>
 constexpr std::array<size_t,DIMS> TensorViewExpr<TensorType<T,Rest...>,DIMS>::products_;
 
+// out-of-class definition for the const view as well (needed before C++17, otherwise reading a
+// const tensor of rank >= 3 through a dynamic view is an undefined reference at link time)
+template<template<typename,size_t...> class TensorType, typename T, size_t DIMS, size_t ... Rest>
+constexpr std::array<size_t,DIMS> TensorConstViewExpr<TensorType<T,Rest...>,DIMS>::products_;
+
 
 } // end of namespace Fastor
 
